@@ -316,3 +316,180 @@ pub fn check_c17(tier: Tier) -> i32 {
     );
     verdict.exit
 }
+
+pub fn check_c16(tier: Tier) -> i32 {
+    use crate::engine_purity as ep;
+    let t0 = Instant::now();
+    let seed = orch::seed_from_env();
+    let e = orch::engine("purity-sim").unwrap();
+    let count = (e.scenarios)(tier);
+    let b = ep::batch(seed, tier);
+    println!("C16 purity-sim: seed {} tier {} batch {} programs, {} history/thread scenarios", seed, tier.name(), b.len(), count);
+    let mut harness_errors: Vec<String> = Vec::new();
+    let mut violations: Vec<crate::acc::Violation> = Vec::new();
+
+    // (a) every program once in a fresh process of the optimised build
+    let jobs: Vec<(String, Vec<String>)> = (0..b.len())
+        .map(|i| (i.to_string(), vec!["one-of-batch".into(), seed.to_string(), tier.name().into(), i.to_string()]))
+        .collect();
+    let outs = orch::run_children(jobs, orch::WORKERS as usize, std::time::Duration::from_secs(120));
+    let mut refs: Vec<String> = Vec::new();
+    let mut fresh_deaths = 0;
+    for (i, o) in outs.iter().enumerate() {
+        let d = o.lines.iter().find_map(|l| l["digest"].as_str().map(|s| s.to_string()));
+        match d {
+            Some(d) => refs.push(d),
+            None => {
+                fresh_deaths += 1;
+                refs.push(format!("process-died {}", o.status_text));
+                if fresh_deaths <= 3 {
+                    harness_errors.push(format!("fresh-process evaluation of batch program {} gave no digest ({}): {}", i, o.status_text, o.stderr_tail));
+                }
+            }
+        }
+    }
+    let discarded = refs.iter().filter(|d| d.as_str() == ep::DISCARD).count();
+    let refs_path = orch::verif_dir().join("sim").join("target").join(format!("refs-{}-{}.json", seed, tier.name()));
+    let _ = std::fs::write(&refs_path, serde_json::to_string(&refs).unwrap());
+    std::env::set_var("NLSIM_REFS", &refs_path);
+
+    // (b) histories and (c) sim-threads
+    let batch = orch::run_engine(&e, seed, tier, count, orch::WORKERS);
+    harness_errors.extend(batch.harness_errors.clone());
+    violations.extend(batch.violations.clone());
+
+    // (d) the same batch, one process per slice, by the second build (no optimisation, debug
+    // assertions, overflow checks), compared item by item
+    let dev = ep::dev_exe();
+    let mut dev_compared = 0u64;
+    let mut dev_digests: Vec<Option<String>> = vec![None; b.len()];
+    if !dev.exists() {
+        harness_errors.push(format!("second build {} is missing (run /verif/check build)", dev.display()));
+    } else {
+        orch::CHILD_EXE.with(|c| *c.borrow_mut() = Some(dev.clone()));
+        let stride = 32usize;
+        let jobs: Vec<(String, Vec<String>)> = (0..stride)
+            .map(|w| (w.to_string(), vec!["digests".into(), seed.to_string(), tier.name().into(), w.to_string(), stride.to_string()]))
+            .collect();
+        let outs = orch::run_children(jobs, orch::WORKERS as usize, std::time::Duration::from_secs(1800));
+        orch::CHILD_EXE.with(|c| *c.borrow_mut() = None);
+        for o in &outs {
+            for l in &o.lines {
+                if let (Some(i), Some(d)) = (l["index"].as_u64(), l["digest"].as_str()) {
+                    dev_digests[i as usize] = Some(d.to_string());
+                }
+            }
+        }
+        for i in 0..b.len() {
+            match &dev_digests[i] {
+                Some(d) => {
+                    if d == ep::DISCARD || refs[i] == ep::DISCARD {
+                        continue;
+                    }
+                    dev_compared += 1;
+                    if *d != refs[i] {
+                        violations.push(ep::build_violation(&b.get(i), &refs[i], d, seed, i as u64));
+                    }
+                }
+                None => {
+                    // the second build died on this slice: evaluate alone to name the program
+                    let d = ep::fresh_digest_with(&dev, &b.get(i)).unwrap_or_else(|e| format!("? {}", e));
+                    if d != ep::DISCARD && refs[i] != ep::DISCARD {
+                        dev_compared += 1;
+                        if d != refs[i] {
+                            violations.push(ep::build_violation(&b.get(i), &refs[i], &d, seed, i as u64));
+                        }
+                    }
+                }
+            }
+        }
+        // programs known to differ between the builds today: reported, each under its own key
+        for (k, src) in ep::DIVERGENCE_PROBES.iter().enumerate() {
+            let rel = ep::fresh_digest(src).unwrap_or_else(|e| format!("? {}", e));
+            let d = ep::fresh_digest_with(&dev, src).unwrap_or_else(|e| format!("? {}", e));
+            dev_compared += 1;
+            if rel != d {
+                violations.push(ep::build_violation(src, &rel, &d, seed, 1_000_000 + k as u64));
+            }
+        }
+    }
+
+    let selftest = if violations.is_empty() && harness_errors.is_empty() {
+        match determinism_selftest(&e, seed, tier, &batch, 48) {
+            Ok(n) => n,
+            Err(m) => {
+                harness_errors.push(m);
+                0
+            }
+        }
+    } else {
+        0
+    };
+    let nviol = violations.len();
+    let verdict = orch::conclude("C16", violations, &harness_errors);
+    let _ = std::fs::remove_file(&refs_path);
+    let acc = &batch.acc;
+    let wall = t0.elapsed().as_secs_f64();
+    let evals = b.len() as u64 + get(acc, "evaluations_in_histories") + get(acc, "evaluations_in_thread_runs") + dev_compared;
+    let nontrivial = acc.distinct.get("nontrivial_cases").map(|s| s.len()).unwrap_or(0)
+        + acc.distinct.get("history_predecessor_pairs").map(|s| s.len()).unwrap_or(0);
+    let mut warnings: Vec<String> = Vec::new();
+    for p in ["fault_preemption", "probe_evaluation_preempted_midway", "probe_result_digested_and_released_on_another_thread", "fault_allocator_mode_non_plain", "comparisons_history", "comparisons_threads"] {
+        if get(acc, p) == 0 {
+            warnings.push(format!("probe {} stayed at zero", p));
+        }
+    }
+    if dev_compared == 0 {
+        warnings.push("no program was compared between the two builds".into());
+    }
+    for w in &warnings {
+        println!("WARNING: {}", w);
+    }
+    let mut samples = acc.samples.clone();
+    samples.push(json!({"batch_program_0": b.get(0), "fresh_process_digest": refs[0]}));
+    let ev = json!({
+        "property_id": "C16",
+        "tier": tier.name(),
+        "seed": seed,
+        "level": "exploration",
+        "coverage": {
+            "evaluations": evals,
+            "distinct_nontrivial": nontrivial,
+            "rule": "a batch of generated programs over one small shared identifier pool (plus probe programs that use a commonly declared name without declaring it, programs with many constants, failing and printing programs) is evaluated (a) once each in a FRESH PROCESS of the optimised build - the reference; (b) in seeded random HISTORIES with repetition inside one process (10-70 evaluations each, allocator modes plain/poison/move); (c) on 2-16 SIM-THREADS (real OS threads, one baton, a seeded scheduler preempting at VM instruction boundaries, random run lengths or PCT-style change points, half of the results digested and released on another thread, every heap access checked for belonging to the running evaluation); (d) by a SECOND BUILD of the same sources without optimisation and with debug assertions and overflow checks, one process per slice. Every digest (value, output, error) is compared item by item with (a). Distinct non-trivial = distinct thread-run event logs with at least two baton switches + distinct (predecessor, program) pairs in histories.",
+            "samples": samples,
+            "exhaustive": false,
+            "batch_programs": b.len(),
+            "batch_programs_discarded_over_budget": discarded,
+            "fresh_process_evaluations": b.len(),
+            "history_sequences": get(acc, "history_sequences"),
+            "thread_runs": get(acc, "thread_runs"),
+            "second_build_comparisons": dev_compared,
+            "simulated_steps": get(acc, "sim_steps"),
+            "runs_per_hour": (evals as f64 / wall * 3600.0) as u64,
+            "seeds_per_hour": ((count + b.len() as u64) as f64 / wall * 3600.0) as u64,
+            "faults_fired": faults_json(acc),
+            "probes": probes_json(acc),
+            "distinct_states": distinct_json(acc),
+            "distinct_state_measure": "schedule_hashes = distinct sequences of (from,to) baton switches; history_predecessor_pairs = distinct (previous program, program) pairs",
+            "counters": counters_json(acc),
+            "determinism_selftest_scenarios_compared": selftest,
+            "components": orch::components(),
+            "warnings": warnings,
+            "candidate_violations": nviol,
+            "known_findings_matched": verdict.known,
+        },
+        "assumptions": [
+            "instruction granularity is the finest interleaving explored (a race inside one instruction is visible only to the Miri adjunct)",
+            "guard rails stop an evaluation before the VM's unchecked fast paths would execute undefined behaviour; such outcomes are compared as 'wild:<kind>'",
+            "the crate reads no clock, locale, environment or file, so CPU/OS variation is not explored"
+        ],
+        "wall_s": wall,
+        "violations": verdict.reported,
+    });
+    orch::write_evidence("C16", &ev);
+    println!(
+        "C16: {} batch programs ({} over budget), {} histories, {} thread runs ({} switches), {} second-build comparisons, {} distinct non-trivial, {} violation(s), {} known, {:.1}s",
+        b.len(), discarded, get(acc, "history_sequences"), get(acc, "thread_runs"), get(acc, "fault_preemption"), dev_compared, nontrivial, verdict.reported, verdict.known, wall
+    );
+    verdict.exit
+}
